@@ -169,6 +169,71 @@ def const_value(e):
     return None
 
 
+def length_degree(fn, e, depth=0):
+    """Physical 'length' dimension of an expression (0 = dimensionless, 1 = length, 2 = squared length), or None
+    when it cannot be determined.  Used to check that a deviation and its tolerance are comparable."""
+    if depth > 8:
+        return None
+    if isinstance(e, ast.Constant) and isinstance(e.value, (int, float)):
+        return 0
+    if isinstance(e, ast.Name):
+        if e.id == "atol":
+            return 1
+        if fn.stmt_of(e) is not None:
+            uv = fn.rd.unique_value(e)
+            if uv is not None:
+                return length_degree(fn, uv[1], depth + 1)
+            ds = fn.rd.defs_of_use(e)
+            # loop targets over position arrays
+        if "position" in e.id or e.id in ("pos",):
+            return 1
+        return None
+    if isinstance(e, ast.Attribute):
+        if e.attr == "positions":
+            return 1
+        if e.attr == "T":
+            return length_degree(fn, e.value, depth + 1)
+        return None
+    if isinstance(e, ast.Subscript):
+        return length_degree(fn, e.value, depth + 1)
+    if isinstance(e, ast.UnaryOp):
+        return length_degree(fn, e.operand, depth + 1)
+    if isinstance(e, ast.BinOp):
+        l, r = length_degree(fn, e.left, depth + 1), length_degree(fn, e.right, depth + 1)
+        if isinstance(e.op, ast.Pow):
+            k = const_value(e.right)
+            return None if l is None or k is None else l * k
+        if isinstance(e.op, (ast.Add, ast.Sub)):
+            if l is None or r is None:
+                return None
+            return l if l == r else (max(l, r) if 0 in (l, r) else None)
+        if isinstance(e.op, ast.Mult):
+            return None if l is None or r is None else l + r
+        if isinstance(e.op, ast.Div):
+            return None if l is None or r is None else l - r
+        return None
+    if isinstance(e, ast.Call):
+        nm = call_name(e)
+        if nm in ("sum", "max", "min", "mean", "abs", "absolute", "array", "asarray", "all", "any", "amax", "amin", "fabs"):
+            if isinstance(e.func, ast.Attribute) and not (isinstance(e.func.value, ast.Name) and e.func.value.id in ("np", "numpy", "math")):
+                return length_degree(fn, e.func.value, depth + 1)
+            return length_degree(fn, e.args[0], depth + 1) if e.args else None
+        if nm == "sqrt":
+            d = length_degree(fn, e.args[0], depth + 1) if e.args else None
+            return None if d is None else d / 2
+        if nm == "norm":
+            return length_degree(fn, e.args[0], depth + 1) if e.args else None
+        if nm == "cdist":
+            metric = const_value(e.args[2]) if len(e.args) > 2 else "euclidean"
+            return 2 if metric == "sqeuclidean" else 1
+        if nm == "apply" and e.args:
+            return length_degree(fn, e.args[0], depth + 1)
+        return None
+    if isinstance(e, (ast.ListComp, ast.GeneratorExp)):
+        return length_degree(fn, e.elt, depth + 1)
+    return None
+
+
 def eq_const(t):
     """`expr == const` or `const == expr` (also !=): returns (expr, const value, is_eq) or None."""
     if isinstance(t, ast.Compare) and len(t.ops) == 1 and isinstance(t.ops[0], (ast.Eq, ast.NotEq)):
